@@ -271,7 +271,7 @@ DIV_TABLE = [
     (r"(^|\.)d3TimeScaleMilliseconds\.range$", r"^int\(step\)$", "ticks() passes a step >= 1 (C16.SUBMS)"),
     (r"(^|\.)d3_scale_linearTickRange$", r"^step$", "step = 10^k x {1,2,5,10} > 0 by construction (C13.P125)"),
     (r"(^|\.)d3_scale_linearTickRange$", r"^m$", "documented contract: tick count >= 1"),
-    (r"(^|\.)Timeline\.colorFunc$", r"^len\(self\.options\[colorName\]\)$", "documented contract: a colour list is non-empty"),
+    (r"(^|\.)colorFunc$", r"^len\(self\.options\[colorName\]\)$", "documented contract: a colour list is non-empty"),
     (r"^vpsc\.", r"^(v|self)\.scale$", "documented contract: variable scales are positive"),
     (r"^vpsc\.PositionStats\.getPosn$", r"^self\.A2$", "A2 = sum of weight*(scale ratio)^2 over >= 1 variable, positive for positive weights"),
     (r"(^|\.)d3_scale_linearTickRange$", r"^math\.log\(10\)$", "constant"),
@@ -452,8 +452,8 @@ def divzero_sites(ctx, R, rule_id, reach):
                 if isinstance(nd.op, ast.Mod):
                     if isinstance(nd.left, (ast.Name,)) and nd.left.id in ("fmtstr", "fmt", "template"):
                         continue
-                    if isinstance(nd.right, ast.Tuple):
-                        continue  # a tuple is never a modulus
+                    if isinstance(nd.right, (ast.Tuple, ast.Dict)):
+                        continue  # a tuple or a dict is never a modulus
                     from .crash import _is_str
 
                     g_ = f
@@ -580,6 +580,58 @@ def _dispatch_never_raises(ctx):
     return ctx.get("c11.dispatch_never_raises", build)
 
 
+def _asserts_hold(ctx, f):
+    """{id(assert node): True} for the assert statements of f whose condition folds to true each time the value-numbered
+    body of f reaches them (receiver and parameters symbolic, callees inlined)."""
+    P = ctx.P
+    seen = {}
+
+    def on_assert(node, c, st_):
+        v = None
+        if isinstance(c, Const):
+            v = bool(c.v)
+        elif num_const(c) is not None:
+            v = num_const(c) != 0
+        seen.setdefault(id(node), []).append(v)
+
+    try:
+        ev = new_eval(P)
+        ev.on_assert = on_assert
+        # attribute names that hold objects of exactly one class of the package, by the type flow: lets method calls on
+        # `x.left.block` and the like be inlined
+        T = ctx.types
+
+        def build_fc():
+            fc = {}
+            for attr, nodes in T.fld_index.items():
+                cl = set()
+                other = False
+                for nd_ in nodes:
+                    for v in T._get(nd_):
+                        if v[0] == "C":
+                            cl.add(v[1])
+                        elif v[0] in ("F", "BM", "K", "M"):
+                            other = True
+                if len(cl) == 1 and not other:
+                    fc[attr] = P.classes[next(iter(cl))]
+            return fc
+
+        for k_, v_ in ctx.get("c11.field_cls", build_fc).items():
+            ev.field_cls.setdefault(k_, v_)
+        st = ev.new_state(f)
+        args = [Opaque(p_) for p_ in (f.params[1:] if f.cls is not None and not f.is_staticmethod else f.params)]
+        selfv = Opaque("self", cls=f.cls, kind="obj") if f.cls is not None and not f.is_staticmethod and f.params else None
+        ev.call_closure(Closure(f, None, selfv=selfv), args, {}, st)
+    except Exception:
+        return {}
+    own = {id(nd) for nd in walk_local(f.node) if isinstance(nd, ast.Assert)}
+    out = {}
+    for k, vs in seen.items():
+        if k in own:
+            out[k] = True if (vs and all(v is True for v in vs)) else (False if any(v is False for v in vs) else None)
+    return out
+
+
 @rule("C11.RAISE")
 def raise_rule(ctx, R):
     P = ctx.P
@@ -588,7 +640,18 @@ def raise_rule(ctx, R):
         f = P.funcs.get(q)
         if f is None:
             continue
+        held = _asserts_hold(ctx, f) if any(isinstance(nd, ast.Assert) for nd in walk_local(f.node)) else {}
         for nd in walk_local(f.node):
+            if isinstance(nd, ast.Assert):
+                h = held.get(id(nd))
+                if h is True:
+                    R.ok("C11.RAISE", "%s|%s" % (q, ntext(nd)[:40]), where(f, nd), "the asserted condition folds to true on every evaluated path of %s" % q)
+                    continue
+                if h is None:
+                    # neither shown nor refuted: an assert states an invariant its author believes in (and `python -O` drops
+                    # it); it is reported only when the value-numbered body refutes it on some path
+                    R.ok("C11.RAISE", "%s|%s" % (q, ntext(nd)[:40]), where(f, nd), "asserted invariant, not refuted by the value-numbered body (not shown either)", nontrivial=False)
+                    continue
             if isinstance(nd, (ast.Raise, ast.Assert)):
                 ok = q in ALLOWED_RAISE and isinstance(nd, ast.Raise)
                 if ok:
@@ -634,15 +697,26 @@ def nolatex(ctx, R):
 @rule("C11.INDEX")
 def index_rule(ctx, R):
     P = ctx.P
-    f = P.func("timeline.Timeline.colorFunc")
-    R.saw(f)
-    tgt = "self.options[%s]" % f.params[1]
-    subs = [n for n in walk_local(f.node) if isinstance(n, ast.Subscript) and isinstance(n.ctx, ast.Load) and resolve_local(f, n.value) == tgt and not (isinstance(n.slice, ast.Name) and n.slice.id == f.params[1]) and ntext(n) != tgt]
-    ok = bool(subs)
-    for s in subs:
-        sl = s.slice
-        ok = ok and isinstance(sl, ast.BinOp) and isinstance(sl.op, ast.Mod) and resolve_local(f, sl.right) == "len(%s)" % tgt and isinstance(sl.left, ast.Name)
-    R.check(ok, "C11.INDEX", f.qual, where(f), "a colour list is indexed modulo its length", "colorFunc indexes the caller's colour list with `%s`: IndexError as soon as there are more labels than colours (must be i %% len(list))" % (ntext(subs[0].slice) if subs else "nothing"))
+    anchor = P.func("timeline.Timeline.colorFunc")
+    # the colour resolver may live in a helper class: every function called colorFunc in the module is looked at; those that
+    # index the option do so modulo its length, and at least one does
+    fs = [f for f in P.funcs.values() if f.name == "colorFunc" and f.module.name == "timeline" and not f.is_lambda]
+    found = 0
+    for f in fs:
+        R.saw(f)
+        if len(f.params) < 2:
+            continue
+        pn = f.params[1] if f.cls is not None else f.params[0]
+        tgts = {"%s.options[%s]" % (f.params[0], pn), "options[%s]" % pn}
+        subs = [n for n in walk_local(f.node) if isinstance(n, ast.Subscript) and isinstance(n.ctx, ast.Load) and resolve_local(f, n.value) in tgts and not (isinstance(n.slice, ast.Name) and n.slice.id == pn) and ntext(n) not in tgts]
+        for s in subs:
+            found += 1
+            sl = s.slice
+            tgt = resolve_local(f, s.value)
+            ok = isinstance(sl, ast.BinOp) and isinstance(sl.op, ast.Mod) and resolve_local(f, sl.right) == "len(%s)" % tgt and isinstance(sl.left, ast.Name)
+            R.check(ok, "C11.INDEX", f.qual, where(f, s), "a colour list is indexed modulo its length", "colorFunc indexes the caller's colour list with `%s`: IndexError as soon as there are more labels than colours (must be i %% len(list))" % ntext(sl))
+    if not found:
+        R.bad("C11.INDEX", anchor.qual, where(anchor), "colorFunc indexes the caller's colour list with `nothing`: IndexError as soon as there are more labels than colours (must be i % len(list))")
 
 
 # ---------------------------------------------------------------------------
@@ -967,6 +1041,43 @@ timeline_opts.rule_id = "GEN.OPTS-MERGE"
 
 
 @rule("GEN.FORMAT")
+def _operand_shape(e, f, depth=0):
+    """Number of format arguments the right operand of `%` supplies: n for a tuple display of n elements, 1 for an evident
+    non-tuple (constant, arithmetic, string building, str()/int()/len() ...), None when it cannot be told."""
+    if isinstance(e, ast.Tuple):
+        return len(e.elts)
+    if isinstance(e, (ast.Constant, ast.JoinedStr, ast.List, ast.Dict, ast.ListComp, ast.Compare, ast.BoolOp, ast.UnaryOp)):
+        return 1
+    if isinstance(e, ast.BinOp):
+        return 1
+    if isinstance(e, ast.Call):
+        if isinstance(e.func, ast.Name) and e.func.id in ("str", "int", "float", "len", "round", "abs", "repr", "max", "min", "sum", "int2name", "format", "chr", "ord"):
+            return 1
+        if isinstance(e.func, ast.Name) and e.func.id == "tuple":
+            return None
+        if isinstance(e.func, ast.Attribute) and e.func.attr in ("join", "format", "strip", "upper", "lower", "replace", "get"):
+            return 1
+        return None
+    if isinstance(e, ast.Name) and depth < 3 and f is not None and not f.is_lambda and e.id not in f.params:
+        vals = []
+        for nd in walk_local(f.node):
+            if isinstance(nd, ast.Assign):
+                for t in nd.targets:
+                    if isinstance(t, ast.Name) and t.id == e.id:
+                        vals.append(nd.value)
+                    elif any(isinstance(x, ast.Name) and x.id == e.id and isinstance(x.ctx, ast.Store) for x in ast.walk(t)):
+                        return None
+            elif isinstance(nd, (ast.For, ast.comprehension)) and any(isinstance(x, ast.Name) and x.id == e.id for x in ast.walk(nd.target)):
+                return None
+            elif isinstance(nd, (ast.AugAssign, ast.NamedExpr)) and isinstance(nd.target, ast.Name) and nd.target.id == e.id:
+                return None
+        shapes = {_operand_shape(v, f, depth + 1) for v in vals}
+        if len(shapes) == 1 and None not in shapes:
+            return shapes.pop()
+        return None
+    return None
+
+
 def format_rule(ctx, R):
     P = ctx.P
     reach = export_reach(ctx)
@@ -992,8 +1103,13 @@ def format_rule(ctx, R):
                     nargs = 2
                     argnodes = []
                 else:
-                    nargs = 1
-                    argnodes = [nd.right]
+                    shape = _operand_shape(nd.right, f)
+                    if shape is None and nspec != 1:
+                        # a name / attribute / call result that may well be a tuple of the right length: not decidable here
+                        # (the value-numbered emitter runs report a wrong arity through GEN.SEQINDEX / C09)
+                        continue
+                    nargs = shape if shape is not None else 1
+                    argnodes = [nd.right] if nargs == 1 else []
                 R.check(nspec == nargs, "GEN.FORMAT", "%s|%r" % (q, fmt[:30]), where(f, nd), "%d conversions, %d arguments" % (nspec, nargs), "format %r has %d conversions but gets %d arguments (TypeError)" % (fmt[:40], nspec, nargs), nontrivial=False)
                 for sp, a in zip([s for s in specs if s != "%"], argnodes):
                     if sp in "diouxXeEfFgG" and isinstance(a, ast.Constant) and isinstance(a.value, str):
@@ -1329,6 +1445,16 @@ def _seqindex(ctx, R):
 
 _seqindex.rule_id = "GEN.SEQINDEX"
 
+
+def _initorder(ctx, R):
+    # the axis is initialised from the normalised data: before parse_items the dicts still hold raw dates / times of day,
+    # on which the time scale raises TypeError
+    from .c07 import init_order
+    return init_order(ctx, R)
+
+
+_initorder.rule_id = "C07.INIT-ORDER"
+
 def _hextotal(ctx, R):
     from .crash import hex_total
     return hex_total(ctx, R)
@@ -1344,4 +1470,4 @@ def _int2name(ctx, R):
 
 _int2name.rule_id = "C11.INT2NAME"
 
-RULES = [none_rule, divzero, raise_rule, nolatex, index_rule, defined, attrs, opts_merge, optkeys, format_rule, siblings, recursion, degenerate, _rangeint, _calfield, _subms, _uni, _crash, _seqindex, _hextotal, _int2name]
+RULES = [none_rule, divzero, raise_rule, nolatex, index_rule, defined, attrs, opts_merge, optkeys, format_rule, siblings, recursion, degenerate, _rangeint, _calfield, _subms, _uni, _crash, _seqindex, _initorder, _hextotal, _int2name]
